@@ -755,18 +755,139 @@ theorem Ell.ray_first_hit (sqrt : K → K) (hsq : SqrtSpec sqrt) (r o d : V3 K)
       · rw [eq_div_iff hA]; linarith
       · exfalso; nlinarith [hwb.1, hwb.2]
 
+/-! ## round 2: the largest real root satisfies the guard; unit normal; sphere curvature; box flag -/
+
+omit [LinearOrder K] [IsStrictOrderedRing K] in
+/-- the value of the code's polynomial at `t = −a_x²` is `−a_x² p_x² (a_y²−a_x²)² (a_z²−a_x²)² ≤ 0` -/
+theorem Ell.secular_at_minus_axis_x (r p : V3 K) :
+    Ell.horner (Ell.secularCoeffs r p) (-(r.x * r.x))
+      = -(r.x * r.x * (p.x * p.x) * (r.y * r.y - r.x * r.x) ^ 2 * (r.z * r.z - r.x * r.x) ^ 2) := by
+  rw [Ell.secular_polynomial_expansion]; ring
+omit [LinearOrder K] [IsStrictOrderedRing K] in
+theorem Ell.secular_at_minus_axis_y (r p : V3 K) :
+    Ell.horner (Ell.secularCoeffs r p) (-(r.y * r.y))
+      = -(r.y * r.y * (p.y * p.y) * (r.x * r.x - r.y * r.y) ^ 2 * (r.z * r.z - r.y * r.y) ^ 2) := by
+  rw [Ell.secular_polynomial_expansion]; ring
+omit [LinearOrder K] [IsStrictOrderedRing K] in
+theorem Ell.secular_at_minus_axis_z (r p : V3 K) :
+    Ell.horner (Ell.secularCoeffs r p) (-(r.z * r.z))
+      = -(r.z * r.z * (p.z * p.z) * (r.x * r.x - r.z * r.z) ^ 2 * (r.y * r.y - r.z * r.z) ^ 2) := by
+  rw [Ell.secular_polynomial_expansion]; ring
+
+/-- abstract step: a polynomial value `P t0 < 0` at `t0`, a root `t` beyond which `P` is positive ⇒ `t0 < t` -/
+theorem Ell.guard_of_largest (P : K → K) (t t0 : K) (hroot : P t = 0) (hlargest : ∀ t', t < t' → 0 < P t') (hneg : P t0 < 0) :
+    0 < t - t0 := by
+  rcases lt_trichotomy t t0 with h | h | h
+  · exact absurd (hlargest t0 h) (not_lt.mpr hneg.le)
+  · rw [h] at hroot; rw [hroot] at hneg; exact absurd hneg (lt_irrefl 0)
+  · linarith
+
+/-- **the largest real root satisfies the guard** (review D, C34-4): for a generic query (no coordinate zero) of an
+ellipsoid with three different semi-axes, a root `t` of the code's polynomial beyond which the polynomial is positive
+(= its largest real root, leading coefficient 1) has `t + aᵢ² > 0` for all three axes -/
+theorem Ell.largest_root_guarded (r p : V3 K) (t : K)
+    (hr : r.x ≠ 0 ∧ r.y ≠ 0 ∧ r.z ≠ 0) (hp : p.x ≠ 0 ∧ p.y ≠ 0 ∧ p.z ≠ 0)
+    (hd : r.x * r.x ≠ r.y * r.y ∧ r.x * r.x ≠ r.z * r.z ∧ r.y * r.y ≠ r.z * r.z)
+    (hroot : Ell.horner (Ell.secularCoeffs r p) t = 0)
+    (hlargest : ∀ t', t < t' → 0 < Ell.horner (Ell.secularCoeffs r p) t') :
+    0 < t + r.x * r.x ∧ 0 < t + r.y * r.y ∧ 0 < t + r.z * r.z := by
+  obtain ⟨rx, ry, rz⟩ := hr; obtain ⟨px, py, pz⟩ := hp; obtain ⟨dxy, dxz, dyz⟩ := hd
+  have pos : ∀ a q u v : K, a ≠ 0 → q ≠ 0 → u ≠ 0 → v ≠ 0 → -(a * a * (q * q) * u ^ 2 * v ^ 2) < 0 := by
+    intro a q u v ha hq hu hv
+    have h3 : 0 < u ^ 2 := by positivity
+    have h4 : 0 < v ^ 2 := by positivity
+    have := mul_pos (mul_pos (mul_pos (mul_self_pos.mpr ha) (mul_self_pos.mpr hq)) h3) h4
+    linarith
+  refine ⟨?_, ?_, ?_⟩
+  · have := Ell.guard_of_largest _ t (-(r.x * r.x)) hroot hlargest
+      (by rw [Ell.secular_at_minus_axis_x]; exact pos _ _ _ _ rx px (sub_ne_zero.mpr (Ne.symm dxy)) (sub_ne_zero.mpr (Ne.symm dxz)))
+    linarith
+  · have := Ell.guard_of_largest _ t (-(r.y * r.y)) hroot hlargest
+      (by rw [Ell.secular_at_minus_axis_y]; exact pos _ _ _ _ ry py (sub_ne_zero.mpr dxy) (sub_ne_zero.mpr (Ne.symm dyz)))
+    linarith
+  · have := Ell.guard_of_largest _ t (-(r.z * r.z)) hroot hlargest
+      (by rw [Ell.secular_at_minus_axis_z]; exact pos _ _ _ _ rz pz (sub_ne_zero.mpr dxz) (sub_ne_zero.mpr dyz))
+    linarith
+
+/-- **generic query**: the point computed from the largest real root is on the ellipsoid and is the nearest surface point
+(composition of `largest_root_guarded`, `nearest_on_surface`, `nearest_is_minimal`) -/
+theorem Ell.nearest_correct_generic (r p : V3 K) (t : K)
+    (hr : r.x ≠ 0 ∧ r.y ≠ 0 ∧ r.z ≠ 0) (hp : p.x ≠ 0 ∧ p.y ≠ 0 ∧ p.z ≠ 0)
+    (hd : r.x * r.x ≠ r.y * r.y ∧ r.x * r.x ≠ r.z * r.z ∧ r.y * r.y ≠ r.z * r.z)
+    (hroot : Ell.horner (Ell.secularCoeffs r p) t = 0)
+    (hlargest : ∀ t', t < t' → 0 < Ell.horner (Ell.secularCoeffs r p) t') :
+    Ell.value r (Ell.nearestWith r p t).pt = 0 ∧
+    ∀ q, Ell.value r q = 0 → V3.normSq (V3.sub p (Ell.nearestWith r p t).pt) ≤ V3.normSq (V3.sub p q) := by
+  have hg := Ell.largest_root_guarded r p t hr hp hd hroot hlargest
+  have hon := Ell.nearest_on_surface r p t hr ⟨ne_of_gt hg.1, ne_of_gt hg.2.1, ne_of_gt hg.2.2⟩ hroot
+  exact ⟨hon, fun q hq => Ell.nearest_is_minimal r p t hr hg hon q hq⟩
+
+/-- the normal returned by `Ellipsoid::findNearestPoint` is a unit vector and `−∇f/(2m)`, `m > 0`: it points along the
+outward normal of the implicit function at the returned point -/
+theorem Ell.nearest_unit_normal (sqrt : K → K) (hsq : SqrtSpec sqrt) (r p : V3 K) (t : K)
+    (hn : 0 < V3.normSq (Ell.nearestWith r p t).normal) :
+    V3.normSq (Ell.nearest sqrt r p t).normal = 1 ∧ 0 < sqrt (V3.normSq (Ell.nearestWith r p t).normal) ∧
+    V3.smul (2 * sqrt (V3.normSq (Ell.nearestWith r p t).normal)) (Ell.nearest sqrt r p t).normal
+      = V3.neg (Ell.grad r (Ell.nearest sqrt r p t).pt) := by
+  have hm2 := hsq.sq _ hn.le
+  have hm0 : sqrt (V3.normSq (Ell.nearestWith r p t).normal) ≠ 0 := by
+    intro h; rw [h, mul_zero] at hm2; exact absurd hm2 (ne_of_lt hn)
+  have hmpos : 0 < sqrt (V3.normSq (Ell.nearestWith r p t).normal) := lt_of_le_of_ne (hsq.nonneg _ hn.le) (Ne.symm hm0)
+  refine ⟨unit_normSq sqrt _ hm2 hm0, hmpos, ?_⟩
+  simp only [Ell.nearest, V3.unit, V3.sdiv, V3.smul, V3.neg, Ell.grad]
+  generalize sqrt (V3.normSq (Ell.nearestWith r p t).normal) = m at hm0
+  simp only [Ell.nearestWith]
+  simp only [V3.mk.injEq]
+  refine ⟨?_, ?_, ?_⟩ <;> field_simp
+
+/-- sphere: the generic curvature routine on the sphere's gradient/Hessian gives `1/r` in every tangent direction -/
+theorem Sph.curvInDir_eq (tiny r : K) (hr : r ≠ 0) (htiny : tiny ≤ 2) (p d : V3 K)
+    (hp : V3.dot p p = r * r) (hd : V3.dot d d = 1) :
+    curvInDir tiny (Sph.grad p) (V3.sdiv p r) Sph.hess d = Sph.curvature r := by
+  have k : V3.dot d (M3.mulVec Sph.hess d) = -2 := by
+    simp only [Sph.hess, diag3, M3.mulVec, V3.dot] at hd ⊢; linear_combination (-2) * hd
+  have g : V3.dot (Sph.grad p) (V3.sdiv p r) = -2 * r := by
+    simp only [Sph.grad, V3.smul, V3.sdiv, V3.dot] at hp ⊢
+    field_simp
+    linear_combination (-1) * hp
+  have ha : ¬ (absK (-2 : K) < tiny) := by
+    simp only [absK]; norm_num; linarith
+  simp only [curvInDir, k, g, ha, if_false, Sph.curvature]
+  field_simp
+
+/-- `Geo::Box::findClosestPointOnSurface`: the returned flag is `containsPoint` -/
+theorem Box.closestSurface_flag (h p : V3 K) : (Box.closestSurface h p).2 = Box.containsPoint h p := by
+  have c1 : ∀ hh c : K, (Box.clamp1 hh c).2 = !decide (hh < absK c) := by
+    intro hh c
+    simp only [Box.clamp1, absK]
+    split_ifs <;> simp <;> linarith
+  have e : (Box.closestSolid h p).2 = Box.containsPoint h p := by
+    simp only [Box.closestSolid, Box.containsPoint, c1]
+  simp only [Box.closestSurface]
+  rw [← e]
+  generalize Box.closestSolid h p = cs
+  obtain ⟨c, ins⟩ := cs
+  cases ins <;> simp
+  split_ifs <;> rfl
+
 /-! ## finding F5 at the level of the model, and non-vacuity of the hypotheses used above -/
 
 /-- **F5**: the guard `t + aᵢ² ≠ 0` of `Ell.nearest_on_surface` cannot be dropped.  Radii (3,2,1), query
 (1/10,0,0) (on two symmetry planes, inside the evolute): the largest real root of the code's polynomial is
-`t = −1 = −a₂²`; the formula `pᵢaᵢ²/(t+aᵢ²)` then yields (9/80, 0, 0) = (0.1125, 0, 0) — which is what the C++
-returns — and that point is not on the ellipsoid. -/
+`t = −1 = −a₂²`, for which the guard fails on the z axis (`t + a_z² = 0`: the z component `p_z a_z²/(t + a_z²)` is `0/0`,
+deliberately **not** evaluated here — over ℚ Lean's `0/0 = 0` would make it 0, over `Float` it is NaN, the C++ gets a root
+`−1 + δ` from Jenkins–Traub and returns 0).  The x and y components are well defined, `(9/80, 0)`, and **no** point of the
+ellipsoid with these x, y has `z = 0` (it needs `z² = 1 − (9/80)²/9`): whatever the z formula yields near `0/0 → 0`, the
+returned point (0.1125, 0, 0) is off the surface (round 2: restated without relying on `0/0 = 0`; review D, C34-1). -/
 theorem Ell.guard_is_needed :
     Ell.horner (Ell.secularCoeffs (⟨3, 2, 1⟩ : V3 ℚ) ⟨1 / 10, 0, 0⟩) (-1) = 0 ∧
     (∀ t : ℚ, Ell.horner (Ell.secularCoeffs (⟨3, 2, 1⟩ : V3 ℚ) ⟨1 / 10, 0, 0⟩) t = 0 → t ≤ -1) ∧
-    (Ell.nearestWith (⟨3, 2, 1⟩ : V3 ℚ) ⟨1 / 10, 0, 0⟩ (-1)).pt = ⟨9 / 80, 0, 0⟩ ∧
-    Ell.value (⟨3, 2, 1⟩ : V3 ℚ) (Ell.nearestWith (⟨3, 2, 1⟩ : V3 ℚ) ⟨1 / 10, 0, 0⟩ (-1)).pt ≠ 0 := by
-  refine ⟨?_, ?_, ?_, ?_⟩
+    ((-1 : ℚ) + 1 * 1 = 0) ∧
+    (Ell.nearestWith (⟨3, 2, 1⟩ : V3 ℚ) ⟨1 / 10, 0, 0⟩ (-1)).pt.x = 9 / 80 ∧
+    (Ell.nearestWith (⟨3, 2, 1⟩ : V3 ℚ) ⟨1 / 10, 0, 0⟩ (-1)).pt.y = 0 ∧
+    (∀ z : ℚ, Ell.value (⟨3, 2, 1⟩ : V3 ℚ) ⟨9 / 80, 0, z⟩ = 0 → z * z = 6391 / 6400) ∧
+    Ell.value (⟨3, 2, 1⟩ : V3 ℚ) ⟨9 / 80, 0, 0⟩ ≠ 0 := by
+  refine ⟨?_, ?_, by norm_num, ?_, ?_, ?_, ?_⟩
   · rw [Ell.secular_polynomial_expansion]; norm_num
   · intro t ht
     by_contra hc
@@ -783,7 +904,11 @@ theorem Ell.guard_is_needed :
     have := mul_pos (mul_pos (pow_pos h1 2) (pow_pos h4 2)) h9
     linarith
   · norm_num [Ell.nearestWith]
-  · norm_num [Ell.nearestWith, Ell.value]
+  · norm_num [Ell.nearestWith]
+  · intro z hz
+    simp only [Ell.value] at hz
+    linarith
+  · norm_num [Ell.value]
 
 /-- non-vacuity of the sphere hypotheses: `p = (3,4,0)`, `sqrt 25 = 5` -/
 example : (fun _ : ℚ => (5:ℚ)) (V3.normSq ⟨3, 4, 0⟩) * (fun _ : ℚ => (5:ℚ)) (V3.normSq ⟨3, 4, 0⟩)
